@@ -9,16 +9,20 @@ sampled grammar (`C19 xvalidate`).
   (`applyRuleEvents` index arithmetic).
 * `errOk` — recovery looks up `gotoState(state, errSymbol)` directly: the lookup is defined in
   every state and its targets respect the `past` certificate like any other transition.
-* `reduceOk` — for every reduce action `(s, a) ↦ A → α` and every state `p'` from which `α` leads
-  to `s` along the transitions of the tables: `gotoState p' A` is a state (`≥ 0`; `certOk` alone
-  admits `-1`, which the recovering runtime would push and then use as an index), and the potential
-  `height + rank a (top state)` decreases: `rank a q + 2 ≤ rank a s + |α|`. This bounds every chain
-  of reductions under a fixed lookahead `a` (`reduceAll`'s simulated reductions, and the main
-  loop's reductions between two shifts) — `rank` is the untrusted part `XCert` of the certificate,
+* `reachXOk` — transitions on the error symbol stay inside the reachable sets `reach` of the
+  soundness certificate.
+* `reduceOk` / `ranksOk` — relative to every input `i`, for the states `s` reachable from the entry
+  state `i` other than the final state of `i` (where the loops stop): for every reduce action
+  `(s, a) ↦ A → α` and every reachable state `p'` from which `α` leads to `s` along the transitions
+  of the tables: `gotoState p' A` is a state (`≥ 0`; `certOk` alone admits `-1`, which the
+  recovering runtime would push and then use as an index), and the potential
+  `weight · height + rank i a (top state)` decreases:
+  `rank i a q + weight + 1 ≤ rank i a s + weight · |α|`. This bounds every chain of reductions
+  under a fixed lookahead `a` (`reduceAll`'s simulated reductions, and the main loop's reductions
+  between two shifts) — `weight` and `rank` are the untrusted part `XCert` of the certificate,
   computed by `mkXCert`. A shift of EOI (which consumes nothing) has to decrease the potential too.
-* `xhaltOk` (only for `C19_halts`) — transitions on the error symbol stay inside the reachable
-  sets of the soundness certificate, and from a reachable non-final state EOI is shifted into the
-  final state only.
+* `xhaltOk` (only for `C19_halts`) — from a reachable non-final state EOI is shifted into the final
+  state only.
 -/
 import TmVerif.Model.LRX
 import TmVerif.Model.LRSound
@@ -26,13 +30,16 @@ namespace TmVerif.LRX
 open TmVerif.LR TmVerif.CFG TmVerif.LRSound
 
 structure XCert where
-  /-- weight of one stack entry in the potential `weight · height + rank a (top state)` -/
+  /-- weight of one stack entry in the potential `weight · height + rank i a (top state)` -/
   weight : Nat
-  /-- `rank[a][s]`: per lookahead terminal `a`, per state `s` -/
-  rank : Array (Array Nat)
+  /-- `rank[i][a][s]`: per input `i`, per lookahead terminal `a`, per state `s` -/
+  rank : Array (Array (Array Nat))
 deriving Repr, Inhabited
 
-def rankOf (xc : XCert) (a s : Nat) : Nat := (xc.rank.getD a #[]).getD s 0
+def rankOf (xc : XCert) (i a s : Nat) : Nat := (((xc.rank.getD i #[]).getD a #[])).getD s 0
+
+/-- the final state of input `i` -/
+def finOf (x : XTables) (i : Nat) : Int := (x.t.finalStates[i]?).getD (-1)
 
 /-- the transitions recovery takes on the error terminal -/
 def errEdges (x : XTables) : List (Nat × Nat × Int) :=
@@ -56,20 +63,27 @@ def backStates (es : List (Nat × Nat × Int)) : List Int → List Nat → List 
   | [], S => S
   | X :: β, S => backStates es β (preds es X S)
 
-def reduceOk (g : Grammar) (x : XTables) (xc : XCert) (es : List (Nat × Nat × Int)) (a s : Nat) : Bool :=
+/-- the rank condition for input `i` in state `s` on terminal `a`; only states reachable from the
+entry state `i` (the `reach` sets of the soundness certificate) other than the final state — where
+the loops stop — have to satisfy it -/
+def reduceOk (g : Grammar) (x : XTables) (cert : Cert) (xc : XCert) (es : List (Nat × Nat × Int))
+    (i a s : Nat) : Bool :=
+  !(reachOf cert i).contains s || (s : Int) == finOf x i ||
   match actOf x.t noDeep s a with
   | some (.reduce r) =>
     match g.rules[r.toNat]? with
     | none => false
     | some rule =>
       (backStates es (rule.rhs.reverse.map Int.ofNat) [s]).all fun (p' : Nat) =>
+        !(reachOf cert i).contains p' ||
         match gotoState x.t p' rule.lhs with
         | some q => decide (0 ≤ q) &&
-            decide (rankOf xc a q.toNat + xc.weight + 1 ≤ rankOf xc a s + xc.weight * rule.rhs.length)
+            decide (rankOf xc i a q.toNat + xc.weight + 1 ≤
+              rankOf xc i a s + xc.weight * rule.rhs.length)
         | none => false
   | some (.shift q) =>
     -- a shift of EOI does not consume input: it has to decrease the potential too
-    a != 0 || (decide (0 ≤ q) && decide (rankOf xc 0 q.toNat + xc.weight + 1 ≤ rankOf xc 0 s))
+    a != 0 || (decide (0 ≤ q) && decide (rankOf xc i 0 q.toNat + xc.weight + 1 ≤ rankOf xc i 0 s))
   | _ => true
 
 def reportsOk (x : XTables) : Bool :=
@@ -91,19 +105,12 @@ def errOk (g : Grammar) (x : XTables) (cert : Cert) : Bool :=
 
 def rankBound (x : XTables) : Nat := 4 * x.t.nStates + 11
 
-def ranksOk (g : Grammar) (x : XTables) (xc : XCert) : Bool :=
+def ranksOk (g : Grammar) (x : XTables) (cert : Cert) (xc : XCert) : Bool :=
   let es := xedges x
   decide (1 ≤ xc.weight) &&
-  (List.range x.t.nTerms).all fun a => (List.range x.t.nStates).all fun s =>
-    decide (rankOf xc a s ≤ rankBound x) && reduceOk g x xc es a s
-
-/-- `weight ≤ 4`: `reduceAll`'s fuel in the model is `4 · (stack height + number of states + 4)` -/
-def xwf (g : Grammar) (x : XTables) (cert : Cert) (xc : XCert) : Bool :=
-  reportsOk x && errOk g x cert && ranksOk g x xc && decide (xc.weight ≤ 4)
-
-/-- the rank check for the core tables alone (no recovery): hypothesis of `C01_lr_halts` -/
-def coreRankOk (g : Grammar) (t : Tables) (xc : XCert) : Bool :=
-  ranksOk g { t := t, rules := #[] } xc
+  (List.range g.inputs.size).all fun i =>
+    (List.range x.t.nTerms).all fun a => (List.range x.t.nStates).all fun s =>
+      decide (rankOf xc i a s ≤ rankBound x) && reduceOk g x cert xc es i a s
 
 /-- transitions on the error symbol stay inside the reachable sets of the soundness certificate -/
 def reachXOk (g : Grammar) (x : XTables) (cert : Cert) : Bool :=
@@ -111,30 +118,36 @@ def reachXOk (g : Grammar) (x : XTables) (cert : Cert) : Bool :=
     (errEdges x).all fun (p, _, q) =>
       !(reachOf cert i).contains p || (reachOf cert i).contains q.toNat
 
-/-- from a reachable state other than the final one, EOI is shifted into the final state only -/
-def eoiOk (g : Grammar) (x : XTables) (cert : Cert) : Bool :=
-  (List.range g.inputs.size).all fun i =>
-    match x.t.finalStates[i]? with
-    | none => false
-    | some f =>
-      (xedges x).all fun (p, X, q) =>
-        !(reachOf cert i).contains p || X != 0 || (p : Int) == f || q == f
+/-- `weight ≤ 4`: `reduceAll`'s fuel in the model is `4 · (stack height + number of states + 4)` -/
+def xwf (g : Grammar) (x : XTables) (cert : Cert) (xc : XCert) : Bool :=
+  reportsOk x && errOk g x cert && reachXOk g x cert && ranksOk g x cert xc && decide (xc.weight ≤ 4)
 
+/-- the rank check for the core tables alone (no recovery): hypothesis of `C01_lr_halts` -/
+def coreRankOk (g : Grammar) (t : Tables) (cert : Cert) (xc : XCert) : Bool :=
+  ranksOk g { t := t, rules := #[] } cert xc
+
+/-- from a reachable state other than the final one, EOI is shifted into the final state only
+(hypothesis of `C19_halts`) -/
 def xhaltOk (g : Grammar) (x : XTables) (cert : Cert) : Bool :=
-  reachXOk g x cert && eoiOk g x cert
+  (List.range g.inputs.size).all fun i =>
+    (xedges x).all fun (p, X, q) =>
+      !(reachOf cert i).contains p || X != 0 || (p : Int) == finOf x i || q == finOf x i
 
 /-! ### computing the rank certificate (untrusted) -/
 
-/-- the constraints `rank s ≥ rank q + weight + 1 - weight · n` of lookahead `a`, as `(s, q, n)` -/
-def rankConstraints (g : Grammar) (x : XTables) (es : List (Nat × Nat × Int)) (a : Nat) :
-    List (Nat × Nat × Nat) :=
-  (List.range x.t.nStates).flatMap fun (s : Nat) =>
+/-- the constraints `rank s ≥ rank q + weight + 1 - weight · n` of input `i` and lookahead `a`, as
+`(s, q, n)` -/
+def rankConstraints (g : Grammar) (x : XTables) (cert : Cert) (es : List (Nat × Nat × Int))
+    (i a : Nat) : List (Nat × Nat × Nat) :=
+  (reachOf cert i).flatMap fun (s : Nat) =>
+    if (s : Int) = finOf x i then [] else
     match actOf x.t noDeep s a with
     | some (.reduce r) =>
       match g.rules[r.toNat]? with
       | none => []
       | some rule =>
         (backStates es (rule.rhs.reverse.map Int.ofNat) [s]).filterMap fun (p' : Nat) =>
+          if !(reachOf cert i).contains p' then none else
           match gotoState x.t p' rule.lhs with
           | some q => if q ≥ 0 then some (s, q.toNat, rule.rhs.length) else none
           | none => none
@@ -152,33 +165,37 @@ def rankFuel (w : Nat) (cs : List (Nat × Nat × Nat)) : Nat → Array Nat → A
     let r' := rankRound w cs r
     if r' == r then r else rankFuel w cs k r'
 
-def mkXCertW (x : XTables) (css : List (List (Nat × Nat × Nat))) (w : Nat) : XCert :=
+def mkXCertW (x : XTables) (csss : List (List (List (Nat × Nat × Nat)))) (w : Nat) : XCert :=
   { weight := w,
-    rank := (css.map fun cs =>
-      rankFuel w cs (2 * x.t.nStates + 4) (Array.replicate x.t.nStates 0)).toArray }
+    rank := (csss.map fun css => (css.map fun cs =>
+      rankFuel w cs (2 * x.t.nStates + 4) (Array.replicate x.t.nStates 0)).toArray).toArray }
 
 /-- the smallest weight (1, 2, 3, 4, then `nStates + 1`) for which the relaxation yields a valid
 certificate -/
-def mkXCert (g : Grammar) (x : XTables) : XCert :=
+def mkXCert (g : Grammar) (x : XTables) (cert : Cert) : XCert :=
   let es := xedges x
-  let css := (List.range x.t.nTerms).map fun a => rankConstraints g x es a
-  match [1, 2, 3, 4].find? (fun w => ranksOk g x (mkXCertW x css w)) with
-  | some w => mkXCertW x css w
-  | none => mkXCertW x css (x.t.nStates + 1)
+  let csss := (List.range g.inputs.size).map fun i =>
+    (List.range x.t.nTerms).map fun a => rankConstraints g x cert es i a
+  match [1, 2, 3, 4].find? (fun w => ranksOk g x cert (mkXCertW x csss w)) with
+  | some w => mkXCertW x csss w
+  | none => mkXCertW x csss (x.t.nStates + 1)
 
 /-- diagnostics: the first failing condition -/
 def xwfFailure (g : Grammar) (x : XTables) (cert : Cert) (xc : XCert) : String :=
   if !reportsOk x then "a report range lies outside its rule's right-hand side" else
   if !errOk g x cert then "a goto on the error symbol is not justified by the stack suffix" else
+  if !reachXOk g x cert then "a goto on the error symbol leaves the reachable set of the soundness certificate" else
   if xc.weight = 0 then "weight 0" else
-  if xc.weight > 4 then s!"reduction chains need weight {xc.weight} > 4 per stack entry: the fuel of the model's reduceAll may not suffice" else
   let es := xedges x
-  match (List.range x.t.nTerms).findSome? (fun a => (List.range x.t.nStates).findSome? fun s =>
-      if rankOf xc a s > rankBound x then some s!"rank of state {s} on terminal {a} exceeds the bound"
-      else if !reduceOk g x xc es a s then
-        some s!"state {s} terminal {a}: reduction {repr (actOf x.t noDeep s a)} leads to a missing goto or does not decrease the rank"
-      else none) with
+  match (List.range g.inputs.size).findSome? (fun i => (List.range x.t.nTerms).findSome? (fun a =>
+      (List.range x.t.nStates).findSome? fun s =>
+      if rankOf xc i a s > rankBound x then some s!"input {i}: rank of state {s} on terminal {a} exceeds the bound"
+      else if !reduceOk g x cert xc es i a s then
+        some s!"input {i} state {s} terminal {a}: action {repr (actOf x.t noDeep s a)} leads to a missing goto or does not decrease the rank (weight {xc.weight})"
+      else none)) with
   | some m => m
-  | none => "certificate rejected"
+  | none =>
+    if xc.weight > 4 then s!"reduction chains need weight {xc.weight} > 4 per stack entry: the fuel of the model's reduceAll may not suffice"
+    else "certificate rejected"
 
 end TmVerif.LRX
